@@ -371,3 +371,11 @@ def lex_lt(a, b):
 def as_tuple(xs):
     t = tuple(x for x in xs)
     return t
+
+
+def count_distinct(xs):
+    return len(set(xs))
+
+
+def is_single(s):
+    return len(s) == 0
